@@ -64,6 +64,9 @@ CLAIMED = {
     'C18': ('CBMC/DFCC frame conditions (assigns clauses) on code extracted from /repo each run, struct layouts generated from clang\'s class definitions; a token-level scan of mutable/static state as a labelled lint',
             'partial: proof that the const interface the library shares across fold / trial / chunk tasks writes nothing of the shared object (solver and its owned line-search prototypes, loss, dataset and generators, iterators, fitted weak learners, tuning result accessors), and that the objects written concurrently by design are written disjointly (slot [tnum], rows [begin,end), cell (trial, fold)); the interleaving semantics itself, the pool\'s synchronisation under real concurrency and floating-point re-association of reductions are not decided',
             'two tasks race only if one writes what the other accesses: frames decide the write sets sequentially; erased callees assumed to write only what they are handed by non-const reference; C13 / C17 contracts used as preconditions', '7/C18'),
+    'C06': ('SMT validity queries (z3 5.1 / z3 4.8 / cvc5) over the reals on value and gradient terms extracted from /repo each run (clang AST -> nvwp), with a syntactic derivative of the extracted value term; exp / log / sqrt / atan uninterpreted with listed facts',
+            'partial: for 16 of the 17 losses, ~25 benchmark functions (symbolic dimension where the expression is coefficient-wise plus a reduction, otherwise fixed small n as labelled bounded stand-ins) and the constraint kinds: the returned gradient is the derivative of the returned value, the value with and without gradient request is the same term, declared-convex objects satisfy the convexity inequality (or, for max-of-terms functions, envelope + convex pieces + the returned gradient belongs to an ACTIVE piece), losses and errors are non-negative and depend only on their own sample row, 0-1 errors follow the arg-max / sign rule; IEEE exactness, agreement with central differences, the remaining functions and the ML objectives are not decided',
+            'double treated as real; the derivative rule table and the facts about exp/log are a small trusted base (listed); bounded stand-ins are never counted as proved', '7/C06 and 11.6'),
 }
 
 NA = {}
